@@ -468,8 +468,15 @@ def main(argv=None):
         for sh in range(nshards):
             jobs.append((a.prop, ti, tier, seed, sh, nshards, src))
     ctx = multiprocessing.get_context("fork")
+    overall = float(os.environ.get("VERIF_TIMEOUT", "900" if tier == "quick" else "7200"))
     with ctx.Pool(min(nshards, len(jobs)) or 1) as pool:
-        results = pool.map(_worker, jobs, chunksize=1)
+        try:
+            results = pool.map_async(_worker, jobs, chunksize=1).get(timeout=overall)
+        except multiprocessing.TimeoutError:
+            pool.terminate()
+            print(f"HARNESS-ERROR: inconclusive - the search did not finish within {overall:.0f}s "
+                  f"(a case did not terminate in C code, where the per-case watchdog cannot interrupt)")
+            return 2
     # scale must reach workers too
     for job, col in zip(jobs, results):
         cols[job[1]].merge(col)
